@@ -100,10 +100,17 @@ def named_run(d, pt, cal, rng, container, P):
     return out
 
 
+class ConstAccessorMismatch(Exception):
+    pass
+
+
 def cpp_named(d, exe, pt, P_by_name, z_by_sensor):
     """named outputs of the generated C++: rows/cols are mapped to names through the accessors' own slots"""
     Ls = sorted(s.name for s in d.state)
     lay = cppgen.run_exe(exe, ["layout"])[0]
+    problems = cppgen.const_read_problems(lay, d)
+    if problems:
+        raise ConstAccessorMismatch("; ".join(problems[:3]))
     slot = {s: int(lay[f"state.{s}"]) for s in Ls}
     cslot = {s: int(lay[f"cov.{s}"]) for s in Ls}
     inv = {v: k for k, v in cslot.items()}
@@ -165,6 +172,9 @@ def cpp_twins(ctx):
         try:
             base = cpp_named(d, e1, pt, P, z)
             tw = cpp_named(d2, e2, pt2, P2, z)
+        except ConstAccessorMismatch as e:
+            ctx.fail("cpp-const-accessor", f"generated C++: a value read by name through a const reference is not the value stored under that name: {e}", case)
+            continue
         except Exception as e:
             ctx.fail("generated-cpp-crashes", repr(e)[:300], case); continue
         for what, vals in base.items():
@@ -175,11 +185,50 @@ def cpp_twins(ctx):
                     break
 
 
+def foreign_objects(ctx):
+    """a state / covariance built for ANOTHER model's names (same count, other spelling) is not a state of this model: handing it
+    to this model's operations must be refused, not consumed slot by slot"""
+    for i in range(3 if ctx.quick else 20):
+        d = gen.gen_definition(ctx.rng, n_state=ctx.rng.choice([2, 3]), n_control=0, n_calib=0, n_sensors=1, depth=1, max_readings=1)
+        m = gen.gen_renaming(ctx.rng, d)
+        if any(m[s.name] == s.name for s in d.state):
+            continue
+        d2 = d.renamed(m)
+        for dd in (d, d2):
+            dd._noise = eh.make_noises(__import__("random").Random(i), dd)
+        pt = gen.gen_point(ctx.rng, d)
+        try:
+            with fk.quiet():
+                a = eh.compile_ekf(d, d._noise[0], d._noise[1], {}, ctx.rng, cse=True)
+                b = eh.compile_ekf(d2, d2._noise[0], d2._noise[1], {}, ctx.rng, cse=True)
+        except Exception as e:
+            ctx.fail(f"run-raises:{fk.exc_kind(e)}", f"filter over a valid definition raises {e!r}"[:300], {"def": d.describe()}); continue
+        st_a, cv_a = eh.state_obj(a, pt), a.Covariance()
+        st_b = b.State(**{m[k]: float(v) for k, v in pt["state"].items()})
+        cv_b = b.Covariance()
+        key = sorted(d.sensors)[0]
+        ops = {"Model.model(foreign state)": lambda: a._state_model.model(0.1, st_b),
+               "process_model(foreign state)": lambda: a.process_model(0.1, st_b, cv_a),
+               "process_model(foreign covariance)": lambda: a.process_model(0.1, st_a, cv_b),
+               "sensor_model(foreign state)": lambda: a.sensor_model(st_b, cv_a, sensor_key=key, sensor_reading=a.make_reading(key, **{r: 0.5 for r in d.sensors[key]}))}
+        for label, op in ops.items():
+            case = {"def": d.describe(), "other_spelling": m, "operation": label}
+            ctx.case(case, True); ctx.count("foreign_object_operations")
+            try:
+                with fk.quiet():
+                    op()
+            except Exception:
+                continue
+            ctx.fail("foreign-object-accepted", f"{label}: an object built for the names {sorted(m.values())} was accepted by a model over {sorted(m)} "
+                     "(its values are then used by position)", case)
+
+
 def run(ctx):
     audit = core.lean_audit("C13")
     drv = core.Driver()
     pending = []
     ctor_cases(ctx, drv, pending)
+    foreign_objects(ctx)
     ndefs = 10 if ctx.quick else 100
     for i in range(ndefs):
         d = gen.gen_definition(ctx.rng, n_state=ctx.rng.choice([2, 3, 4]), n_sensors=ctx.rng.choice([1, 2]), depth=2, max_readings=2)
